@@ -595,9 +595,13 @@ func (d *urlValuesDecoder) parseValue(v string, schema *openapi3.SchemaRef) (any
 		var value any
 		var err error
 		for _, sr := range schema.Value.AllOf {
-			value, err = d.parseValue(v, sr)
-			if value == nil || err != nil {
-				break
+			var branch any
+			if branch, err = d.parseValue(v, sr); err != nil {
+				return branch, err
+			}
+			// a branch without a type (constraints only) parses to no value: keep what a typed branch gave
+			if branch != nil {
+				value = branch
 			}
 		}
 		return value, err
